@@ -204,10 +204,11 @@ func (fr *frame) contractCall(st *state, g *ssa.Function, ct *FuncContract, key 
 	if anchor == "" {
 		anchor = g.Name()
 	}
-	vars := map[string]TV{}
+	vars := map[string]TV{"fn": {T: e.u.fnID(key), Sort: "Int"}}
 	for i, p := range g.Params {
 		if i < len(args) {
 			vars[p.Name()] = TV{T: args[i], Sort: e.u.sortOf(p.Type()), Typ: p.Type()}
+			vars[fmt.Sprintf("a%d", i)] = vars[p.Name()]
 		}
 	}
 	pkg := ""
@@ -391,10 +392,31 @@ func (fr *frame) dynamicCall(st *state, c *ssa.CallCommon, pos token.Pos, args [
 		key = "functype:" + qualName(n)
 	} else {
 		key = "functype:" + sigKey(sig)
+		// an unnamed function type with the signature of a named one that has a contract
+		for k := range e.contracts.Funcs {
+			if !strings.HasPrefix(k, "functype:") {
+				continue
+			}
+			q := strings.TrimPrefix(k, "functype:")
+			if i := strings.Index(q, "."); i > 0 {
+				if t, err := e.resolveType(q[:i], q[i+1:]); err == nil {
+					if us, ok := t.Underlying().(*types.Signature); ok && sigKey(us) == sigKey(sig) {
+						key = k
+					}
+				}
+			}
+		}
 	}
 	ct := e.contracts.Funcs[key]
 	if ct != nil {
 		fc.used[key] = true
+		// every repo function that can flow into this function type must implement the contract
+		for _, g := range e.sigFuncs[sigKey(sig)] {
+			gc := e.contracts.Funcs[e.keyOf(g)]
+			if gc == nil || gc.Implements != key {
+				fr.oblige(st, "functype", anchor+"."+e.keyOf(g), pos, "false", e.keyOf(g)+" can be called through "+key+" but does not declare `implements`")
+			}
+		}
 	} else {
 		fc.unmodelled[key] = true
 	}
